@@ -35,7 +35,7 @@ def main():
         if not os.path.exists(os.path.join(d, "patch.diff")):
             continue
         meta = json.load(open(os.path.join(d, "meta.json")))
-        prop = meta["property"]
+        prop = meta.get("owner_check") or meta["property"]
         wt = f"/dev/shm/vf_seed_{os.getpid()}_{name}"
         sh(f"git -C /repo worktree add -q --detach {wt} HEAD")
         try:
